@@ -114,7 +114,7 @@ def ensureStep (now : Int) (newData : Val) (c : Coll) (ix : Index) : R Coll :=
   if !ix.unique then pure c
   else do
     let kwargs ← valuesFor ix.keys newData
-    let skip := ix.sparse && kwargs.all isNullKv
+    let skip := ix.sparse && kwargs.all isNullCond
     if skip then pure c
     else do
       let (c', ms) ← iterDocuments now c (queryOf ix kwargs)
@@ -126,7 +126,7 @@ theorem ensureUniques_eq (now : Int) (c : Coll) (new : Val) :
 /-- what the check of one index leaves behind -/
 def Checked (new : Val) (ix : Index) (docs : List (Val × Val)) : Prop :=
   ix.unique = true → ∀ kw, valuesFor ix.keys new = .ok kw →
-    (ix.sparse && kw.all isNullKv) = false →
+    (ix.sparse && kw.all isNullCond) = false →
     hits (queryOf ix kw) docs ≤ 1
 
 theorem Checked.sublist {new : Val} {ix : Index} {l l' : List (Val × Val)} (h : Checked new ix l)
